@@ -23,8 +23,11 @@ func normJSON(tr interface{}) interface{} {
 	if !ok {
 		return tr
 	}
-	if _, ok := m["iri"]; ok {
-		return T{"iri": m["iri"]}
+	if s, ok := m["iri"]; ok {
+		if s == "" {
+			return nil // the empty IRI writes nothing
+		}
+		return T{"iri": s}
 	}
 	if l, ok := m["iris"]; ok {
 		out := []interface{}{}
@@ -48,6 +51,9 @@ func normJSON(tr interface{}) interface{} {
 		if nv := normField(v); nv != nil {
 			nf[name] = nv
 		}
+	}
+	if len(nf) == 0 {
+		return nil // an object with nothing to say is not written
 	}
 	return T{"t": m["t"], "ptr": true, "f": nf}
 }
@@ -190,6 +196,19 @@ func diffField(d string) string {
 	return p
 }
 
+// jsonRoundTripRaw: decode(encode(x)) only, no judgement
+func jsonRoundTripRaw(tr interface{}) (after interface{}, bytes []byte, err error) {
+	it := buildItem(tr)
+	if p, _ := guard(func() { bytes, err = ap.MarshalJSON(it) }); p || err != nil {
+		return nil, nil, err
+	}
+	var back ap.Item
+	if p, _ := guard(func() { back, err = ap.UnmarshalJSON(bytes) }); p || err != nil {
+		return nil, bytes, err
+	}
+	return dumpItem(back), bytes, nil
+}
+
 func jsonRoundTrip(tr interface{}) (after interface{}, bytes []byte, viol string) {
 	it := buildItem(tr)
 	var err error
@@ -247,6 +266,8 @@ func c01Case(c *Ctx, tr interface{}, tag string) {
 	}
 	c.Emit(in, shown, true)
 	c.Tag(tag)
+	// the same value through the deep model (writer and reader on JSON trees)
+	c.Emit(map[string]interface{}{"op": "deepRoundTrip", "v": tr}, shown, false)
 	if viol != "" {
 		cls := "C01/roundtrip"
 		if strings.HasPrefix(viol, "panic") {
@@ -383,6 +404,54 @@ func init() {
 			tr := cfg.genNode(c.R, typ, cfg.MaxDepth, false)
 			tr["ptr"] = true
 			c01Case(c, tr, "random/"+typ)
+		}
+	}
+	corner := campaigns["C01"]
+	campaigns["C01"] = func(c *Ctx) {
+		corner(c)
+		// outside the property's quantifier, for the deep model only: lists with nil-like members in every
+		// position, one-element IRI lists, empty lists, empty strings, repeated language references
+		cfg := c01Cfg(2)
+		cfg.NilMembers = true
+		cfg.RepeatLang = true
+		deep := func(tr T, tag string) {
+			after, _, _ := jsonRoundTripRaw(tr)
+			var shown interface{}
+			if after != nil {
+				shown = dropEmpties(after)
+			}
+			c.Emit(map[string]interface{}{"op": "deepRoundTrip", "v": tr}, shown, true)
+			c.Tag(tag)
+		}
+		for i := 0; i < c.N(600, 15000); i++ {
+			typ := allGoTypes[c.R.Intn(len(allGoTypes))]
+			tr := cfg.genNode(c.R, typ, cfg.MaxDepth, false)
+			tr["ptr"] = true
+			deep(tr, "deep-corner/random")
+		}
+		silent := []interface{}{nil, T{"t": "Object", "nil": true}, T{"iri": ""}, T{"t": "Object", "ptr": true, "f": T{}}}
+		for _, sv := range silent {
+			for pos := 0; pos < 3; pos++ {
+				for n := 0; n < 3; n++ {
+					l := []interface{}{}
+					for k := 0; k < n; k++ {
+						l = append(l, T{"iri": fmt.Sprintf("https://example.com/m%d", k)})
+					}
+					if pos > len(l) {
+						continue
+					}
+					l = append(l[:pos:pos], append([]interface{}{sv}, l[pos:]...)...)
+					deep(T{"t": "Object", "ptr": true, "f": T{"ID": T{"s": "https://example.com/h"}, "Type": T{"s": "Note"}, "To": T{"list": l}, "Audience": T{"list": l},
+						"Context": T{"items": l, "ptr": false}, "URL": T{"items": l, "ptr": true}}}, "deep-corner/silent-members")
+				}
+			}
+		}
+		for n := 0; n < 3; n++ {
+			l := []interface{}{}
+			for k := 0; k < n; k++ {
+				l = append(l, fmt.Sprintf("https://example.com/i%d", k))
+			}
+			deep(T{"t": "Object", "ptr": true, "f": T{"ID": T{"s": "https://example.com/h"}, "Type": T{"s": "Note"}, "Context": T{"iris": l}, "URL": T{"iris": l}}}, "deep-corner/iris")
 		}
 	}
 	replayers["C01"] = func(class string, input []byte) string {
